@@ -371,16 +371,16 @@ theorem loadable_of_tinv (n : NewCfg) (ha : n.accepted = true) {t : Table} (hI :
 
 /-- **the restart operation is defined and deterministic**, and its table is exactly the allocated leases with a client
     identifier, each re-attached by `loadByteArray`'s rule; the cursors restart at `FirstIP` -/
-theorem restart_spec (n : NewCfg) (ha : n.accepted = true) (hn : News n) (s : State) (hI : TInv (mkCfg n) s.table)
+theorem restart_spec (n : NewCfg) (ha : n.accepted = true) (hn : News n) (t : Table) (hI : TInv (mkCfg n) t)
     (capt : List MAC) (hosts : List (IP × MAC)) :
-    ∃ s', restart n s capt hosts = [s'] ∧ s'.next1 = (mkCfg n).net1.first ∧ s'.next2 = (mkCfg n).net2.first
+    ∃ s', restart n t capt hosts = [s'] ∧ s'.next1 = (mkCfg n).net1.first ∧ s'.next2 = (mkCfg n).net2.first
       ∧ s'.hosts = hosts ∧ s'.captured = capt ∧ KeysUnique s'.table
       ∧ ∀ c l', (c, l') ∈ s'.table ↔
-          ∃ l, (c, l) ∈ s.table ∧ l.state = .allocated ∧ c ≠ []
+          ∃ l, (c, l) ∈ t ∧ l.state = .allocated ∧ c ≠ []
             ∧ l' = reloaded (fun m => capt.contains m) (lsubOf (mkCfg n).net2 3) l := by
   obtain ⟨hn1, hn2⟩ := news_lsubs n hn
   obtain ⟨b', hb, e1, e2, hk, hm⟩ := rebuilt_table (homeExp n) (nfExp n) capt (lsubOf (mkCfg n).net1 1)
-    (lsubOf (mkCfg n).net2 3) s.table (newSubnet_resave _ _ hn1) (newSubnet_resave _ _ hn2)
+    (lsubOf (mkCfg n).net2 3) t (newSubnet_resave _ _ hn1) (newSubnet_resave _ _ hn2)
     (configChanged_expected _ _ hn1) (configChanged_expected _ _ hn2) hI.keys (loadable_of_tinv n ha hI)
   refine ⟨stateOf b' capt hosts, ?_, ?_, ?_, rfl, rfl, hk, hm⟩
   · simp only [restart, restartWith, hb]
@@ -421,9 +421,11 @@ theorem leaseOK_reloaded (n : NewCfg) (ha : n.accepted = true) {l : Lease} (hok 
     have : l.state = .discover := hd
     rw [hs] at this; cases this
 
-theorem restart_rinv (n : NewCfg) (ha : n.accepted = true) (hn : News n) {s : State} (h : RInv (mkCfg n) s)
-    (capt : List MAC) (hosts : List (IP × MAC)) : ∀ s', s' ∈ restart n s capt hosts → RInv (mkCfg n) s' := by
-  obtain ⟨s0, e, _, _, _, _, hk, hm⟩ := restart_spec n ha hn s h.tinv capt hosts
+theorem restart_rinv (n : NewCfg) (ha : n.accepted = true) (hn : News n) {t : Table} (hT : TInv (mkCfg n) t)
+    (hA : AllocNoOffer t) (capt : List MAC) (hosts : List (IP × MAC)) :
+    ∀ s', s' ∈ restart n t capt hosts → RInv (mkCfg n) s' := by
+  have h : RInv (mkCfg n) { table := t, next1 := 0, next2 := 0, hosts := [], captured := [] } := ⟨hT, hA⟩
+  obtain ⟨s0, e, _, _, _, _, hk, hm⟩ := restart_spec n ha hn t hT capt hosts
   intro s' hs'
   rw [e, List.mem_singleton] at hs'
   subst hs'
@@ -440,17 +442,17 @@ theorem restart_rinv (n : NewCfg) (ha : n.accepted = true) (hn : News n) {s : St
     exact h.ano c p q hs'
 
 
-/-! ### the machine with restarts and the observer's ledger -/
+/-! ### the process (server + lease file) with restarts and the observer's ledger -/
 
 /-- a restart is invisible on the wire: the acknowledgements in force stay in force -/
 def observeR (L : Ledger) : ROp → List Reply → Ledger
   | .op o, rs => observe L o rs
   | .restart _ _, _ => L
 
-/-- runs of the machine with restarts together with the observer's ledger -/
-def runR (n : NewCfg) : State → Ledger → List ROp → List (State × Ledger)
-  | s, L, [] => [(s, L)]
-  | s, L, op :: ops => (stepR n s op).flatMap (fun o => runR n o.1 (observeR L op o.2) ops)
+/-- runs of the process together with the observer's ledger -/
+def runR (n : NewCfg) : PState → Ledger → List ROp → List (PState × Ledger)
+  | p, L, [] => [(p, L)]
+  | p, L, op :: ops => (stepP n p op).flatMap (fun o => runR n o.1 (observeR L op o.2) ops)
 
 /-- messages carry a hardware address (see `C18.OpWF`); a restart is unconstrained -/
 def WFOp : ROp → Prop
@@ -477,47 +479,146 @@ theorem getLease_of_mem {t : Table} (hk : KeysUnique t) {c : Cid} {l : Lease} (h
       simp only [List.find?, hne]
       exact ih hk.2 hm'
 
-theorem rinv_stepR (n : NewCfg) (ha : n.accepted = true) (hn : News n) {s : State} (h : RInv (mkCfg n) s) (op : ROp)
-    (o : State × List Reply) (ho : o ∈ stepR n s op) : RInv (mkCfg n) o.1 := by
+/-- a step that sends no ACK allocates nothing: every allocated lease of the post-state is the same entry of the pre-state -/
+theorem alloc_of_no_ack {cfg : Cfg} {s : State} (op : Op) (o : State × List Reply) (ho : o ∈ step cfg s op)
+    (hna : acked o.2 = false) : ∀ c l, (c, l) ∈ o.1.table → l.state = .allocated → (c, l) ∈ s.table := by
+  have hset : ∀ (c : Cid) (v : Lease), (v.state = .allocated → (c, v) ∈ s.table) →
+      ∀ k l, (k, l) ∈ setLease s.table c v → l.state = .allocated → (k, l) ∈ s.table := by
+    intro c v hv k l hm hs
+    rcases mem_setLease.1 hm with ⟨rfl, rfl⟩ | ⟨_, m⟩
+    · exact hv hs
+    · exact m
+  have hfoc : ∀ (c : Cid) (mac : MAC), (findOrCreate s c mac).state = .allocated → (c, findOrCreate s c mac) ∈ s.table := by
+    intro c mac hs
+    rcases findOrCreate_cases s c mac with hm | hf
+    · exact hm.1
+    · rw [hf] at hs; simp [freshLease] at hs
   cases op with
-  | op p => exact rinv_step h p o ho
-  | restart capt hosts =>
-    simp only [stepR, List.mem_map] at ho
-    obtain ⟨s', hs', rfl⟩ := ho
-    exact restart_rinv n ha hn h capt hosts s' hs'
+  | discover now m =>
+    simp only [step, List.mem_singleton] at ho; subst ho
+    rcases discover_outcome cfg s now m with ⟨cur, e⟩ | ⟨s1, ip, _, _, _, e, _⟩ <;> rw [e]
+    · intro c l hm _; exact (mem_delLease.1 hm).2
+    · exact hset _ _ (by intro a; simp [offerLease] at a)
+  | request now m =>
+    simp only [step, List.mem_singleton] at ho; subst ho
+    rcases request_outcome cfg s now m with e | ⟨l', rs, hk, e, _⟩ | ⟨hv, e⟩
+    · rw [e]; intro c l hm _; exact hm
+    · rw [e]
+      rcases verdict_kept hk with rfl | ⟨rfl, _⟩
+      · exact hset _ _ (hfoc _ _)
+      · exact hset _ _ (by intro a; simp [freedLease] at a)
+    · rw [e, ackLease_eq] at hna
+      simp [acked, mkReply] at hna
+  | decline m =>
+    simp only [step, List.mem_singleton] at ho; subst ho
+    rcases decline_outcome cfg s m with e | e <;> rw [e]
+    · exact hset _ _ (hfoc _ _)
+    · exact hset _ _ (by intro a; simp [declinedLease] at a)
+  | release m =>
+    simp only [step, List.mem_singleton] at ho; subst ho
+    exact hset _ _ (hfoc _ _)
+  | minuteTick now =>
+    simp only [step, List.mem_singleton] at ho; subst ho
+    intro k l hm hs
+    obtain ⟨l0, hm0, r⟩ := mem_freeLeases hm
+    rcases r with rfl | ⟨rfl, _⟩
+    · exact hm0
+    · simp at hs
+  | capture mac => simp only [step, List.mem_singleton] at ho; subst ho; intro c l hm _; exact hm
+  | releaseCapture mac => simp only [step, List.mem_singleton] at ho; subst ho; intro c l hm _; exact hm
+  | hostSeen ip mac => simp only [step, List.mem_singleton] at ho; subst ho; intro c l hm _; exact hm
+  | hostGone ip => simp only [step, List.mem_singleton] at ho; subst ho; intro c l hm _; exact hm
 
-theorem keysNE_stepR (n : NewCfg) (ha : n.accepted = true) (hn : News n) {s : State} (h : RInv (mkCfg n) s)
-    (hk : KeysNE s.table) (op : ROp) (hw : WFOp op) (o : State × List Reply) (ho : o ∈ stepR n s op) :
-    KeysNE o.1.table := by
+/-- without an ACK the observer's ledger only shrinks -/
+theorem observe_subset_of_no_ack (L : Ledger) (op : Op) (rs : List Reply) (hna : acked rs = false) :
+    ∀ b, b ∈ observe L op rs → b ∈ L := by
+  have hf : rs.filter (fun r => r.typ == .ack) = [] := by
+    apply List.filter_eq_nil_iff.2
+    intro r hr
+    unfold acked at hna
+    rw [List.any_eq_false] at hna
+    exact hna r hr
+  intro b hb
+  cases op <;> simp only [observe, subject, hf, List.map_nil, List.append_nil, List.mem_filter] at hb
+  all_goals first | exact hb.1 | exact hb
+
+/-- the invariant of the process: C11's table invariant and "allocated ⇒ no pending offer" for the handler's table AND
+    for the table in the lease file, and every allocated lease of the handler is in the file as it is -/
+structure PInv (cfg : Cfg) (p : PState) : Prop where
+  cur : RInv cfg p.s
+  fileT : TInv cfg p.file
+  fileA : AllocNoOffer p.file
+  covers : ∀ c l, (c, l) ∈ p.s.table → l.state = .allocated → (c, l) ∈ p.file
+
+theorem pinv_init (n : NewCfg) : PInv (mkCfg n) (initP n) :=
+  ⟨rinv_init _, tinv_nil _, by intro c l hm; simp [initP] at hm, by intro c l hm; simp [initP, init] at hm⟩
+
+theorem pinv_stepP (n : NewCfg) (ha : n.accepted = true) (hn : News n) {p : PState} (h : PInv (mkCfg n) p) (op : ROp)
+    (o : PState × List Reply) (ho : o ∈ stepP n p op) : PInv (mkCfg n) o.1 := by
   cases op with
-  | op p => exact keys_step hk p hw o ho
+  | op q =>
+    simp only [stepP, List.mem_map] at ho
+    obtain ⟨r, hr, rfl⟩ := ho
+    have hc := rinv_step h.cur q r hr
+    by_cases hack : acked r.2 = true
+    · exact ⟨hc, by simp only [fileAfter, hack, if_true]; exact hc.tinv, by simp only [fileAfter, hack, if_true]; exact hc.ano,
+        by intro c l hm _; simp only [fileAfter, hack, if_true]; exact hm⟩
+    · have hack' : acked r.2 = false := by simpa using hack
+      refine ⟨hc, by simp only [fileAfter, hack', Bool.false_eq_true, if_false]; exact h.fileT,
+        by simp only [fileAfter, hack', Bool.false_eq_true, if_false]; exact h.fileA, ?_⟩
+      intro c l hm hs
+      simp only [fileAfter, hack', Bool.false_eq_true, if_false]
+      exact h.covers c l (alloc_of_no_ack q r hr hack' c l hm hs) hs
   | restart capt hosts =>
-    simp only [stepR, List.mem_map] at ho
+    simp only [stepP, List.mem_map] at ho
     obtain ⟨s', hs', rfl⟩ := ho
-    obtain ⟨s0, e, _, _, _, _, _, hm⟩ := restart_spec n ha hn s h.tinv capt hosts
+    have hc := restart_rinv n ha hn h.fileT h.fileA capt hosts s' hs'
+    exact ⟨hc, hc.tinv, hc.ano, fun c l hm _ => hm⟩
+
+/-- what the ledger refinement needs in addition: client identifiers are not empty (handler and file), and the ledger is
+    backed by the file as well as by the handler's table -/
+structure PSim (p : PState) (L : Ledger) : Prop where
+  keys : KeysNE p.s.table
+  fkeys : KeysNE p.file
+  sim : C11.Sim p.s L
+  fsim : ∀ b, b ∈ L → ∃ l, (b.cid, l) ∈ p.file ∧ l.state = .allocated ∧ l.ip = some b.ip ∧ b.expiry ≤ l.expiry
+
+/-- the ledger stays backed by table and file: an ACK rewrites the file from the table, without ACK the ledger only
+    shrinks, a restart reloads every acknowledged lease from the file -/
+theorem psim_stepP (n : NewCfg) (ha : n.accepted = true) (hn : News n) {p : PState} {L : Ledger} (h : PInv (mkCfg n) p)
+    (hS : PSim p L) (op : ROp) (hw : WFOp op) (o : PState × List Reply) (ho : o ∈ stepP n p op) :
+    PSim o.1 (observeR L op o.2) := by
+  cases op with
+  | op q =>
+    simp only [stepP, List.mem_map] at ho
+    obtain ⟨r, hr, rfl⟩ := ho
+    have hk' := keys_step hS.keys q hw r hr
+    have hs' := C11.sim_step h.cur.tinv hS.sim q r hr
+    by_cases hack : acked r.2 = true
+    · exact ⟨hk', by simp only [fileAfter, hack, if_true]; exact hk', hs',
+        by simp only [fileAfter, hack, if_true]; exact hs'⟩
+    · have hack' : acked r.2 = false := by simpa using hack
+      refine ⟨hk', by simp only [fileAfter, hack', Bool.false_eq_true, if_false]; exact hS.fkeys, hs', ?_⟩
+      intro b hb
+      simp only [fileAfter, hack', Bool.false_eq_true, if_false]
+      exact hS.fsim b (observe_subset_of_no_ack L q r.2 hack' b hb)
+  | restart capt hosts =>
+    simp only [stepP, List.mem_map] at ho
+    obtain ⟨s', hs', rfl⟩ := ho
+    obtain ⟨s0, e, _, _, _, _, _, hm⟩ := restart_spec n ha hn p.file h.fileT capt hosts
     rw [e, List.mem_singleton] at hs'
     subst hs'
-    intro e' he'
-    cases e' with
-    | mk c l =>
-      obtain ⟨_, _, _, hc, _⟩ := (hm c l).1 he'
-      exact hc
-
-/-- the ledger stays backed by the lease table across a restart: every acknowledged lease is reloaded -/
-theorem sim_stepR (n : NewCfg) (ha : n.accepted = true) (hn : News n) {s : State} {L : Ledger} (h : RInv (mkCfg n) s)
-    (hk : KeysNE s.table) (hS : C11.Sim s L) (op : ROp) (o : State × List Reply) (ho : o ∈ stepR n s op) :
-    C11.Sim o.1 (observeR L op o.2) := by
-  cases op with
-  | op p => exact C11.sim_step h.tinv hS p o ho
-  | restart capt hosts =>
-    simp only [stepR, List.mem_map] at ho
-    obtain ⟨s', hs', rfl⟩ := ho
-    obtain ⟨s0, e, _, _, _, _, _, hm⟩ := restart_spec n ha hn s h.tinv capt hosts
-    rw [e, List.mem_singleton] at hs'
-    subst hs'
-    intro b hb
-    obtain ⟨l, hml, hst, hip, hex⟩ := hS b hb
-    exact ⟨_, (hm b.cid _).2 ⟨l, hml, hst, hk _ hml, rfl⟩, hst, hip, hex⟩
+    have hkeys : KeysNE s'.table := by
+      intro e' he'
+      cases e' with
+      | mk c l =>
+        obtain ⟨_, _, _, hc, _⟩ := (hm c l).1 he'
+        exact hc
+    have hsim : C11.Sim s' L := by
+      intro b hb
+      obtain ⟨l, hml, hst, hip, hex⟩ := hS.fsim b hb
+      exact ⟨_, (hm b.cid _).2 ⟨l, hml, hst, hS.fkeys _ hml, rfl⟩, hst, hip, hex⟩
+    exact ⟨hkeys, hkeys, hsim, hsim⟩
 
 /-- no OFFER and no ACK carries the address of an allocated lease of another client (table form of C11 (a') / (b)) -/
 theorem given_not_bound {cfg : Cfg} {s : State} (hI : TInv cfg s.table) (op : Op) (m : Msg) (hm : C11.msgOf op = some m)
